@@ -45,6 +45,11 @@ def cases(tier, seed):
         # a return bit followed by a redefinition of an intermediate it used; an input called x0 passed through bare
         {"inputs": ["a", "b", "c"], "list": [["t", ["and", "a", "b"]], ["_ret.0", ["or", "t", "c"]], ["t", ["xor", "a", "b"]], ["_ret.1", ["and", "t", "c"]]]},
         {"inputs": ["x0", "a", "b", "c"], "list": [["_ret.0", "x0"], ["_ret.1", ["xor", ["and", "a", "b"], "c"]], ["_ret.2", ["or", ["and", "a", "b"], "c"]]]},
+        # Xor operands that are different before a rewrite and identical after it (they must cancel)
+        {"inputs": ["a", "b", "c"], "list": [["_ret", ["xor", ["ite", "c", "a", "b"], ["or", ["and", "c", "a"], ["and", ["not", "c"], "b"]]]]]},
+        {"inputs": ["a", "b", "c"], "list": [["_ret", ["xor", ["imp", "a", "b"], ["or", ["not", "a"], "b"], "c"]]]},
+        {"inputs": ["a", "b", "c"], "list": [["_ret", ["xor", ["or", "a", "b", "c"], ["not", ["and", ["not", "a"], ["not", "b"], ["not", "c"]]], "a"]]]},
+        {"inputs": ["a", "b", "c"], "list": [["_ret.0", ["xor", ["ite", "a", "b", "c"], ["ite", "a", "b", "c"], "b"]], ["_ret.1", ["and", ["imp", "a", "b"], ["or", ["not", "a"], "b"]]]]},
         # if-then-else with complemented branches
         {"inputs": ["a", "b", "c"], "list": [["_ret", ["ite", "a", "b", ["not", "b"]]]]},
         {"inputs": ["a", "b", "c"], "list": [["_ret", ["ite", ["not", "a"], ["and", "b", "c"], ["not", ["and", "b", "c"]]]]]},
